@@ -24,8 +24,8 @@ impl From<std::io::Error> for DecodeError { #[verifier::external_body] fn from(e
         TypeItem(L, "struct", "Covenant", subst=[("(Arc<Vec<OpCode>>)", "(pub Arc<Vec<OpCode>>)")]),
         Raw("impl View for Covenant { type V = Seq<OpCode>; open spec fn view(&self) -> Seq<OpCode> { (*self.0)@ } }"),
         Fn(O, "read_byte", home="C12", implicit_props=("C09", "C12"), sig_subst=[("read_byte<T: std::io::Read>(input: &mut T)", "read_byte(input: &mut &[u8])")],
-           ensures=[C("byte", "old(input)@.len() >= 1 ==> res is Ok && res->Ok_0 == old(input)@[0] && final(input)@ == old(input)@.skip(1)", "C12"),
-                    C("short", "old(input)@.len() == 0 ==> res is Err", "C12")]),
+           ensures=[C("byte", "old(input)@.len() >= 1 ==> res is Ok && res->Ok_0 == old(input)@[0] && final(input)@ == old(input)@.skip(1)", "C12", "C04", "C05"),
+                    C("short", "old(input)@.len() == 0 ==> res is Err", "C12", "C04", "C05")]),
         Fn(O, "decode", impl="OpCode", home="C12", implicit_props=("C09", "C12"), sig_subst=[("decode<T: std::io::Read>(input: &mut T)", "decode(input: &mut &[u8])")],
            rewrites=[("SUBALL", r"\|input: &mut T\|", "|input: &mut &[u8]|"), ("SUBALL", r"\bu16::from_be_bytes\(", "u16_from_be_bytes("), ("SUBALL", r"\bu8::from_be_bytes\(", "u8_from_be_bytes("),
                      ("SUBALL", r"\bu16::from_le_bytes\(", "u16_from_le_bytes("), ("SUBALL", r"\bu16::from_ne_bytes\(", "u16_from_ne_bytes(")],
@@ -40,12 +40,12 @@ impl From<std::io::Error> for DecodeError { #[verifier::external_body] fn from(e
                         assert(b0.skip(1).skip(1) =~= b0.skip(2)); assert(b0.skip(2).take(n as int) =~= p); assert(b0.skip(2).skip(n as int) =~= b0.skip((2 + n) as int));
                         assert(buf@.reverse() =~= s); assert(s.len() == 32); lemma_lead0_zeros((32 - n) as nat, p);
                         assert(be_bytes(integ@) == s); assert(lead0(p) == 0 <==> (n == 0 || p[0] != 0)); assert(n > 0 ==> p[0] == b0[2]); }""")],
-           ensures=[C("k", "match spec_decode1(old(input)@) { Some((op, n)) => res == Ok::<OpCode, DecodeError>(op) && n <= old(input)@.len() && final(input)@ == old(input)@.skip(n as int), None => res is Err }", "C12",
+           ensures=[C("k", "match spec_decode1(old(input)@) { Some((op, n)) => res == Ok::<OpCode, DecodeError>(op) && n <= old(input)@.len() && final(input)@ == old(input)@.skip(n as int), None => res is Err }", "C12", "C04", "C05",
                       note="the decoder computes the defined wire format: Ok exactly on the strings that start with one well-formed instruction (canonical PushIC only), consuming exactly that instruction")]),
         Fn(O, "encode", impl="OpCode", home="C12", implicit_props=("C09", "C12"),
            rewrites=[("SUBALL", r"\.to_be_bytes\(\)", ".to_be_bytes_v()"), ("SUBALL", r"\.to_le_bytes\(\)", ".to_le_bytes_v()"), ("SUBALL", r"bytes_repr\.iter\(\)\.take_while\(\|i\| \*\*i == 0\)\.count\(\)", "count_leading_zero_bytes(&bytes_repr)")],
            injects=[Inject(("after_let", "leading_zeros"), "proof { broadcast use axiom_u256_range, axiom_be; assert(bytes_repr@.len() == 32); lemma_lead0_bound(bytes_repr@); }")],
-           ensures=[C("k", "match spec_encode1(*self) { Some(e) => res is Ok && final(output)@ == old(output)@ + e, None => res is Err && final(output)@ == old(output)@ }", "C12",
+           ensures=[C("k", "match spec_encode1(*self) { Some(e) => res is Ok && final(output)@ == old(output)@ + e, None => res is Err && final(output)@ == old(output)@ }", "C12", "C04",
                       note="the encoder appends exactly the defined encoding; the only failure is a PushB literal longer than 255 bytes, which writes nothing")]),
         Fn(O, "opcodes_weight", mode="assume", ensures=[C("value", "res as int == spec_weight(opcodes@)", "C11")]),
         Fn(L, "from_bytes", impl="Covenant", home="C12", implicit_props=("C09", "C12"),
@@ -65,7 +65,7 @@ impl From<std::io::Error> for DecodeError { #[verifier::external_body] fn from(e
            ])]),
         Fn(L, "to_bytes", impl="Covenant", home="C12", implicit_props=("C09", "C12"), uses="group_core_axioms",
            requires=[C("encodable", "enc_all(self@) is Some", note="every PushB literal has at most 255 bytes (true of every covenant obtained from from_bytes)")],
-           ensures=[C("bytes", "Some(res@) == enc_all(self@)", "C12")],
+           ensures=[C("bytes", "Some(res@) == enc_all(self@)", "C12", "C04")],
            loops=[Loop(0, binder="it", invariants=[
                C("prefix", "refs_of(it.seq(), self@) && enc_all(self@) is Some && enc_all(self@.take(it.index@ as int)) == Some(out@)", "C12"),
            ], body_entry="proof { let j = it.index@ as int; lemma_enc_take(self@, j + 1); assert(self@.take(j + 1).last() == self@[j]); assert(*op == self@[j]); assert(self@.take(j + 1).drop_last() =~= self@.take(j)); }",
